@@ -352,3 +352,86 @@ Proof.
   vm_compute. split; reflexivity.
 Qed.
 Print Assumptions C32_bad_block_nil_header_panic_refuted.
+
+(* ---- Closer: "never imported/stored twice" over the PRUNING block state -------------------- *)
+From C32 Require Import ProofsNeverTwice.
+
+(* ProofsNeverTwice.v refines ModelPrune's environment by what dot/state.BlockState.AddBlock ->
+   BlockTree.AddBlock does on top of HasHeader(parent): the parent must be a node of the in-memory
+   tree, whose root moves to the finalised block on Prune (stored blocks carry their ancestor path,
+   in_tree k := tree root in path k, p_import_block = import_block_t + the refusal PNotInTree,
+   pfinalise = Prune; pe_ever = ghost list of every hash ever stored).
+   For EVERY sequence of importer calls (PBlock b: arbitrary block data) and finalisations (PFin f:
+   SetFinalisedHash of any stored block, as GRANDPA or an imported justification does) from the
+   genesis state, IF the header hash determines the parent hash (one function par with
+   h_parent h = par (h_hash h) for every offered header - header-hash injectivity on the parent
+   link), every offered block's stated hash is the hash of its header (what validateResults
+   enforces: C32_reject_forged_or_unlinked / provenance in C32_pruning_parents_first_provenance),
+   and no offered hash is the genesis' parent hash, THEN
+   - the hashes imported (executed and stored: EImport) over the whole run are pairwise distinct,
+   - the genesis is never imported,
+   - the ghost list of all hashes ever stored is exactly: the imported hashes, latest first, then
+     the genesis - so "pairwise distinct" says that nothing is stored twice, pruned or not. *)
+Theorem C32_never_twice_under_pruning : forall (par : N -> N) (root : N) (steps : list pstep),
+  par root <> root ->
+  (forall b h, In (PBlock b) steps -> d_header b = Some h ->
+     h_hash h = d_hash b /\ h_parent h = par (h_hash h) /\ h_hash h <> par root) ->
+  forall evs e', p_run (pinit root (par root)) steps = (evs, e') ->
+    NoDup (pimports evs)
+    /\ ~ In root (pimports evs)
+    /\ pe_ever e' = rev (pimports evs) ++ [root].
+Proof. exact never_twice. Qed.
+Print Assumptions C32_never_twice_under_pruning.
+
+(* The same for one importer call at any point of such a run: a block whose hash was stored at any
+   earlier time - still stored, or pruned since - is not imported; what is imported is the offered
+   stated hash, it is not the genesis and was not imported before. *)
+Theorem C32_never_reimported_under_pruning :
+  forall (par : N -> N) (root : N) (pre : list pstep) (b : bdata),
+  par root <> root ->
+  (forall b' h, In (PBlock b') (pre ++ [PBlock b]) -> d_header b' = Some h ->
+     h_hash h = d_hash b' /\ h_parent h = par (h_hash h) /\ h_hash h <> par root) ->
+  forall evs0 e evs e' err,
+    p_run (pinit root (par root)) pre = (evs0, e) ->
+    p_import_block e b = (evs, e', err) ->
+    (In (d_hash b) (pe_ever e) -> pimports evs = [])
+    /\ (forall s, In s (pimports evs) -> s = d_hash b /\ ~ In s (root :: pimports evs0)).
+Proof. exact never_reimported. Qed.
+Print Assumptions C32_never_reimported_under_pruning.
+
+(* The refined importer step against ModelPrune's (erase forgets paths and tree root): unless
+   AddBlock refuses the block because its parent is no tree node (PNotInTree), it produces the
+   events and the error flag of import_block_t, for both values of the prune switch, and - when
+   the block carries no justification - the same block state.  No hypothesis on the state. *)
+Theorem C32_pruning_importer_refines : forall prune e b evs e' err,
+  p_import_block e b = (evs, e', err) -> refused_by_tree evs = false ->
+  exists te', import_block_t prune (erase e) b = (flat_map unPE evs, te', err)
+    /\ (d_just b = false -> te' = erase e').
+Proof. exact sim_import_block. Qed.
+Print Assumptions C32_pruning_importer_refines.
+
+(* non-vacuity: forks 0 <- 1 <- 2 <- 3 and 1 <- 4 <- 5; 3 is imported with a justification and
+   finalised, which prunes 4; 5 is refused (parent pruned); 4 offered again is refused by the tree
+   (its parent 1 is stored but is no tree node any more); the hypotheses of the theorem hold of
+   this run.  ModelPrune's importer, which only asks HasHeader, imports 4 a second time. *)
+Example C32_never_twice_example :
+  nt_par 0 <> 0
+  /\ (forall b h, In (PBlock b) (map PBlock nt_blocks) -> d_header b = Some h ->
+        h_hash h = d_hash b /\ h_parent h = nt_par (h_hash h) /\ h_hash h <> nt_par 0)
+  /\ match p_run (pinit 0 (nt_par 0)) (map PBlock nt_blocks) with
+     | (evs, e) =>
+       evs = [PE (EImport 1); PE (EImport 2); PE (EImport 4); PE (EImport 3); PE (EFinal 3);
+              PE (EOrphanPruned 5); PNotInTree 4; PE (ESkip 3)]
+       /\ pimports evs = [1; 2; 4; 3]
+       /\ map pb_hash (pe_known e) = [3; 2; 1; 0] /\ pe_root e = 3 /\ pe_ever e = [3; 4; 2; 1; 0]
+     end.
+Proof. exact never_twice_example. Qed.
+
+Example C32_hasheader_only_imports_twice :
+  (fix go (e : tenv) (l : list bdata) : list event :=
+     match l with
+     | [] => []
+     | b :: r => match import_block_t true e b with (ev, e1, _) => ev ++ go e1 r end
+     end) (mktenv [mkkb 0 99 0] [0] 0) nt_blocks
+  = [EImport 1; EImport 2; EImport 4; EImport 3; EFinal 3; EOrphanPruned 5; EImport 4; ESkip 3].
+Proof. exact two_envs_differ. Qed.
